@@ -11,7 +11,7 @@ from hypothesis import strategies as st
 
 from vf import cases, gen, sim
 from vf.props.c16 import _tot
-from vf.runner import SubCheck, require, target
+from vf.runner import Skip, SubCheck, require, target
 
 RULE = ("(a) 1-D profile (rho,u,p smooth or rough) tiled along y or x, transverse velocity 0 or uniform v != 0 (then only with periodic/wall/copy sides), nx in 2..10, ny in 1..6, lx != ly, "
         "{centered, hlle} x {extrapol2d1 <-> extrapol1, extrapol2dk(k) <-> extrapolk(k)}, in-line boundaries {per, sym, insub, insup, outsub, outsup} on either end, transverse "
@@ -134,9 +134,11 @@ TAGS = ["per", "sym", "insub", "insup", "outsub", "outsup", "dirichlet"]
 def strat_sym(tier):
     nmax = 5 if tier == "quick" else 8
     tag = st.sampled_from(TAGS)
+    # rough = 0: smooth data, any reconstruction; 1: rough data, first order; 2: rough data, any reconstruction (extrapolated face states may then be
+    # inadmissible: the centred flux stays finite, the HLLE flux gives NaN at those faces - in the same places of the original and of the mapped problem)
     return st.builds(lambda g, nx, ny, lx, ly, rough, num, s_r, s_s, fl, tl, tr, tb, tt, mp: dict(
-        gamma=g, nx=nx, ny=ny, lx=lx, ly=ly, num=(dict(name="extrapol2d1") if rough else num), state=(s_r if rough else s_s), flux=fl, left=tl, right=tr, bottom=tb, top=tt, map=mp),
-        gen.GAMMAS, st.integers(1, nmax), st.integers(1, nmax), st.one_of(gen.logf(-1, 1), gen.logf(-9, 4)), st.one_of(gen.logf(-1, 1), gen.logf(-9, 4)), st.booleans(), gen.num2d_any(),
+        gamma=g, nx=nx, ny=ny, lx=lx, ly=ly, num=(dict(name="extrapol2d1") if rough == 1 else num), state=(s_r if rough else s_s), flux=fl, left=tl, right=tr, bottom=tb, top=tt, map=mp),
+        gen.GAMMAS, st.integers(1, nmax), st.integers(1, nmax), st.one_of(gen.logf(-1, 1), gen.logf(-9, 4)), st.one_of(gen.logf(-1, 1), gen.logf(-9, 4)), st.sampled_from([0, 0, 1, 1, 2]), gen.num2d_any(),
         gen.state_euler2d(True, lnrange=1.0, machmax=2.0), gen.state_euler2d(False, lnrange=0.7, machmax=1.5, smooth_amp=0.05),
         st.sampled_from(["centered", "hlle"]), tag, tag, tag, tag, st.sampled_from(["transpose", "reflect-x", "reflect-y"]))
 
@@ -229,8 +231,19 @@ def check_sym(case):
         r0 = _evaluate(disc0, f0)
         r1 = _evaluate(disc1, f1)
         got = (T(r1[0]), np.vstack([T(r1[1][0]), -T(r1[1][1])]), T(r1[2]))
-    if not all(np.all(np.isfinite(x)) for x in r0):
+    nonfinite = not all(np.all(np.isfinite(x)) for x in r0)
+    if nonfinite and case["num"]["name"] == "extrapol2d1":
         sim.nonfinite_operator(case["num"])
+    if nonfinite:
+        # inadmissible extrapolated face states (high-order reconstruction of rough data): the non-finite entries must sit in the mapped places
+        for k, nm in enumerate(("mass", "momentum", "energy")):
+            require(np.array_equal(np.isfinite(got[k]), np.isfinite(r0[k])), "grid-symmetry-nonfinite-pattern", "%s residual: the non-finite entries of the %s problem are not the images of those of the original (%dx%d, %s/%s)"
+                    % (nm, mp, nx, ny, case["flux"], case["num"]["name"]))
+        ok = [np.isfinite(x) for x in r0]
+        if not any(np.any(m) for m in ok):
+            raise Skip("extrapolated face states outside the admissible set everywhere")
+        r0 = tuple(np.where(m, x, 0.0) for m, x in zip(ok, r0))
+        got = tuple(np.where(m, x, 0.0) for m, x in zip(ok, got))
     c = np.sqrt(g * p / rho)
     a = float(np.max(np.sqrt(V[0] ** 2 + V[1] ** 2) + c))
     # boundary states (dirichlet / inlets) may be larger than the data: widen the scale by the largest residual
@@ -246,7 +259,7 @@ def check_sym(case):
         worst = max(worst, e)
     target(worst, "symmetry-error")
     same = np.array_equal(rho2, rho) and np.array_equal(V2, V) and np.array_equal(p2, p) and nx == ny
-    return dict(nontrivial=not same, labels=["map:" + mp, "flux:" + case["flux"], "num:" + case["num"]["name"], "nx=ny" if nx == ny else "nx!=ny", "lx=ly" if lx == ly else "lx!=ly"]
+    return dict(nontrivial=not same, labels=["map:" + mp, "flux:" + case["flux"], "num:" + case["num"]["name"], "nx=ny" if nx == ny else "nx!=ny", "lx=ly" if lx == ly else "lx!=ly", "nonfinite-entries" if nonfinite else "finite"]
                 + ["%s:%s" % (k[0], t) for k, t in sorted(tags.items())])
 
 
